@@ -16,7 +16,7 @@ from pyabv.ref import bucket
 RULE = (
     "cases = (unit, weight-vector pair or family) relations: two-group ramps p% -> q% (step 10 quick / 2 thorough), "
     "n-group vectors with mass moved towards earlier groups, 20 successive ramps of one experiment (interval "
-    "intersection over all 20 results of a unit), decimal-weight ramps, multi-branch programs with the condition field "
+    "intersection over all 20 results of a unit), decimal-weight ramps, the same shares written at other magnitudes, multi-branch programs with the condition field "
     "flipped, label changes, golden ids sitting on old and new boundaries. distinct_nontrivial = distinct (unit, pair) "
     "where the unit changed group or lies within 1% of a moved boundary."
 )
@@ -123,7 +123,7 @@ def run(ctx):
     im = impl()
     rnd = ctx.rnd
     gold = golden.load()
-    nunits = 400 if ctx.quick() else 6000
+    nunits = 1200 if ctx.quick() else 6000
     with ProbaProbe() as probe:
         # two-group ramps
         step = 10 if ctx.quick() else 2
@@ -162,9 +162,9 @@ def run(ctx):
                             uid = int(digits) if not digits.startswith("0") else digits
                             _check_golden(ctx, fam, uid, probe)
         # n-group ramps, 20 successive ramps, decimal ramps
-        nfam = ctx.n(40, 4000)
+        nfam = ctx.n(160, 4000)
         for i in range(nfam):
-            kind = rnd.choice(["pair", "chain", "decimal", "labels"])
+            kind = rnd.choice(["pair", "chain", "decimal", "labels", "scaled"])
             if kind == "pair":
                 v1, v2 = ramp_pair(rnd)
                 fam, pairs = Family(ctx, im, [v1, v2]), [(0, 1)]
@@ -178,6 +178,18 @@ def run(ctx):
                     vs.append([str(pts[j + 1] - pts[j]) for j in range(n)])
                 vs = [v for v in vs if any(x != "0" for x in v)]
                 fam, pairs = Family(ctx, im, vs), [(j, j + 1) for j in range(len(vs) - 1)] + [(0, len(vs) - 1)]
+            elif kind == "scaled":
+                # the same shares written at other magnitudes (x 10^-7, x 10^-4, x 10^5): nobody moves
+                from decimal import Decimal
+
+                base = [rnd.randint(0, 9) for _ in range(rnd.randint(2, 5))]
+                if not any(base):
+                    base[0] = 1
+                vs = [[str(x) for x in base]]
+                for e in rnd.sample([-9, -7, -6, -4, -2, 3, 5, 8], 3):
+                    vs.append([format(Decimal(x).scaleb(e), "f") for x in base])
+                fam = Family(ctx, im, vs)
+                pairs = [(a, b) for a in range(len(vs)) for b in range(len(vs)) if a != b]
             elif kind == "decimal":
                 a = rnd.choice(["0.1", "0.25", "1.5", "3.4", "0.000000001", "33.3"])
                 b = rnd.choice(["0.2", "0.7", "2.5", "5", "1", "66.7"])
